@@ -150,6 +150,48 @@ def make_machist(k):
     return fn
 
 
+# ------------------------------------------------------------------ O3b: several MAC addresses on one line, then each on its own line
+LINE_MACS = ["52:54:00:ab:cd:01", "52:54:00:ab:cd:02", "0a:1b:2c:3d:4e:5f", "52:54:00:AB:CD:04"]
+LINE_GLUE = ["link/ether ", " brd ", " permaddr ", " alias "]
+
+
+def mac_line_history(n, first_alone):
+    """n distinct addresses on one line (as `ip link` prints them) and each of them on a line of its own, in either order"""
+    obj = MACM.Mac()
+    macs = LINE_MACS[:n]
+    together = "".join(g + m for g, m in zip(LINE_GLUE, macs)) + " up"
+    singles = ["hw %s up" % m for m in macs]
+    lines = singles + [together] if first_alone else [together] + singles
+    outs = [obj.parse_line(ln) for ln in lines]
+    rep = dict((e["original"], e["obfuscated"]) for e in obj.mapping())
+    bad = []
+    for m in macs:
+        if m not in rep:
+            bad.append("%s is missing from mapping()" % m)
+    if not bad:
+        for ln, o in zip(lines, outs):
+            exp = ln
+            for m in macs:
+                exp = exp.replace(m, rep[m])
+            if str(o) != exp:
+                bad.append("line %r became %r; with one substitute per address as mapping() reports them it is %r" % (ln, str(o), exp))
+    if len(set(rep.values())) != len(rep):
+        bad.append("two addresses share a substitute")
+    return bad
+
+
+def make_macline():
+    def fn(en):
+        K.HASH.reset()
+        n = 2 + en.choice("n", 3)
+        first_alone = en.flag("singles_first")
+        case = lambda mv: {"kind": "macline", "n": n, "first_alone": first_alone}  # noqa
+        en.note_sample(case)
+        bad = mac_line_history(n, first_alone)
+        en.must_hold(not bad, "mac-mapping", case, detail=bad)
+    return fn
+
+
 def _mac_pool(case):
     b0, b1 = case["b0"], case["b1"]
     d0 = MACM.Mac().parse_line("hw %s up" % b0)[3:20]
@@ -261,6 +303,7 @@ def make_iphist(nlines, preseed, families=None):
 
 
 SYSTEM_NAMES = [K.FQDN, "MyHost.Example.org"]
+EMBED = object()
 
 
 def make_hosthist():
@@ -275,8 +318,11 @@ def make_hosthist():
         for li in range(nl):
             parts = [("glue", "on ")]
             for ti in range(1 + en.choice("ntok%d" % li, 2)):
-                kind = en.choice("kind%d_%d" % (li, ti), 3)
-                if kind == 0:
+                kind = en.choice("kind%d_%d" % (li, ti), 4 if (li == 0 and ti == 0) else 3)
+                if kind == 3:
+                    t = "10.1.2.3.dyn." + domain       # a host name that embeds a dotted IPv4 address: it is one host, replaced as a whole
+                    labs.append(t)
+                elif kind == 0:
                     t = fqdn
                 elif kind == 1 and labs:
                     t = labs[en.choice("which%d_%d" % (li, ti), len(labs))]
@@ -386,6 +432,8 @@ def obligations(tier):
         Obligation("O3-mac-history", make_machist(3), ["mac-mapping"], desc="three MAC lines through one Mac obfuscator, addresses recurring or new (first pair symbolic), sha1 uninterpreted",
                    bounds={"history": 3, "addresses": "each step one of: xx:00:5e:00:53:00, yy:00:5e:00:53:01 (xx, yy symbolic), or the substitute text of the first one"}, stubs=K.STUBS, outside=outside, encoded=enc[6:9],
                    budget_s=600 if thorough else 150, replay="machist", check_sample=True),
+        Obligation("O3b-mac-line", make_macline(), ["mac-mapping"], desc="2-4 distinct MAC addresses on one line and each on a line of its own, in either order: one substitute per address everywhere (finite exploration, concrete addresses)",
+                   bounds={"addresses": LINE_MACS, "per line": "2-4"}, stubs=K.STUBS, encoded=[MACM.Mac.parse_line, MACM.Mac._mac2db], budget_s=60, replay="machist", check_sample=True),
         Obligation("O4-ipv4-history", make_iphist(3 if thorough else 2, [0, 9], IP_FAMILIES if thorough else IP_FAMILIES[:2] + IP_FAMILIES[3:]), ["ipv4-consistent"],
                    desc="lines / specs through one cleaner after 0 or 9 earlier addresses: output == simultaneous replacement by the reported mapping; report injective, functional, nothing extra",
                    bounds={"lines": 3 if thorough else 2, "tokens per line": "1-2", "address families": (IP_FAMILIES if thorough else IP_FAMILIES[:2] + IP_FAMILIES[3:]), "recurrence": "any earlier token may recur", "earlier addresses": [0, 9]},
@@ -460,6 +508,8 @@ def _native(case):
         for e in rep:
             if e["original"] not in macs:
                 bad.append("mapping() lists %s which never occurred" % e["original"])
+    elif kind == "macline":
+        bad = mac_line_history(case["n"], case["first_alone"])
     elif kind == "ip6hist":
         bad = ip6_history([[tuple(t) for t in toks] for toks in case["spec"]])
     elif kind in ("iphist", "hosthist"):
